@@ -23,6 +23,7 @@ type Obligation struct {
 	Reach  bool
 	Fields []fieldVar // scalar locations reachable from the parameters (entry values), for replay
 	Vars   []modelVar // terms whose model values are interesting for replay
+	Skolems []string  // integer skolem constants of the negated goal (candidate map keys for replay)
 	Hints  [][]string // staged size bounds used only when a counterexample model is fetched (see Solver.solveH)
 	// obligations raised at the same program point on the same path (all postconditions and frame conditions of one
 	// return) are first tried as ONE query: prefix ∧ (¬g1 ∨ … ∨ ¬gn); only if that is not unsat are they solved one by one
